@@ -102,7 +102,8 @@ def native_model(co, seed=3):
         if c is None:
             dd.append({"distribution": virocon.WeibullDistribution(alpha=1.2 + 0.4 * i, beta=1.6 + 0.2 * i, gamma=0.05 * i)})
         else:
-            a = virocon.DependenceFunction(lambda x, a=0.8 + 0.3 * i, b=0.35 + 0.1 * i: a + b * x)
+            # (moderate trends: a chain of four log-normals must stay within floating-point range at the contour radii)
+            a = virocon.DependenceFunction(lambda x, a=0.5 + 0.15 * i, b=0.08 + 0.02 * i: a + b * np.log1p(x))
             s = virocon.DependenceFunction(lambda x, a=0.25 + 0.02 * i, b=0.3, c=-0.4 - 0.1 * i: a + b * np.exp(c * x))
             dd.append({"distribution": virocon.LogNormalDistribution(), "conditional_on": c, "parameters": {"mu": a, "sigma": s}})
     return virocon.GlobalHierarchicalModel(dd)
@@ -414,6 +415,8 @@ class MargBase(Contract):
         return NQ(self.x.get((r,)))
 
     def replay(self, case, ob):
+        if case.get("dim") is not None and case["co"][case["dim"]] is None:
+            return {"confirmed": False, "detail": "unconditional variable: its own distribution is used, no quadrature to replay"}
         return replay_rows(self.target.split(".")[-1], case["co"], case.get("dim"))
 
     def check_result(self, itp, out):
